@@ -62,6 +62,18 @@ CHECKS = {
         note=TRUST + " RDF output that rdflib itself cannot parse back is not compared (counted).",
         ref="DESIGN.md section 4, C13",
     ),
+    "C16": dict(
+        technique="deterministic simulation of the I/O surface: per seeded document state the complete destination-kind x source-kind x format x detection-mode product over stdlib streams, real files in a private directory and simulated streams (chunked / non-seekable / failing), under an emulated platform default encoding",
+        text="For every sampled state (seeded history inside the intersection of the C01/C02/C07 spaces, non-ASCII content forced) all cells are enumerated: json/xml/rdf/provn written to a returned string, StringIO, BytesIO, simulated text and binary streams, files opened 'w' and 'wb', and a path must agree (UTF-8 for binary targets, C14N for XML, restarted blank-node stream for RDF); the produced text read back as content str, content bytes, text/binary streams (stdlib, chunked, non-seekable, short-read raw), files and paths, and through prov.read with and without a format, must all give the same strict snapshot; platform default encoding in {utf-8, cp1252, ascii}; write errors on destination streams must propagate. The kinds product is complete per state; states are sampled.",
+        note=TRUST + " Stream stubs honour the io ABCs; the platform encoding is emulated at the open() boundary.",
+        ref="DESIGN.md section 4, C16",
+    ),
+    "C17": dict(
+        technique="deterministic simulation with fault injection: per seeded scenario every Python-level I/O instant of serialize(destination=path) is failed, torn and crashed in turn (with and without a cross-device temp directory) in a real private directory",
+        text="Scenario = seeded document state x format/options x file-name class (relative, absolute, sub-directory, spaces, non-ASCII, '#', '?', ';', ':', '%41') x destination absent/pre-existing x temp directory on the same/another device. A fault-free instrumented run must leave exactly the reference bytes in exactly the named file and nothing else new; then every instant of its trace (mkstemp, fdopen, each write, close, rename/replace, copy steps, unlink) x {error, torn write, crash} is injected alone in a fresh directory (thorough: plus seeded double faults): when the call ends the named file must hold its old content in full (or be absent) or the complete new serialisation, a normal return requires the new content, a restarted reader must see what the reference bytes give, and one fault-free retry must succeed.",
+        note="Trusted: the interposer's instants are Python-level calls (C code writing to a file name would be invisible; none today); power loss without fsync is not modelled; kernel rename/truncate semantics are real.",
+        ref="DESIGN.md section 4, C17",
+    ),
     "C18": dict(
         technique="deterministic simulation: seeded record-insertion histories, per-step index-coherence invariant",
         text="Seeded exploration of histories over every record-adding path (new_record, factories, convenience methods, add_record, update, add_bundle, constructor records, JSON/XML deserialisation, unified, flattened); after every step every live container is checked: get_record in 5 spellings == scan of get_records by identifier URI (same objects, same order), get_records(cls) == isinstance filter for 20 classes, records is an independent copy. A pass is evidence over the explored histories, not proof.",
